@@ -9,7 +9,8 @@
 #include "msa_op.h"
 #include "weave_alignment.h"
 
-int update_gaps(int old_len,int*gis,int *newgaps);
+int kv_update_gaps(int old_len, int *gis, int *newgaps);
+int kv_make_seq(struct msa *msa, int a, int b, int *path);
 
 /* update_gaps <gis> <newgaps> */
 static int op_update_gaps(int argc, char **argv, FILE *out)
@@ -19,7 +20,7 @@ static int op_update_gaps(int argc, char **argv, FILE *out)
         if(kv_parse_ints(argv[0], &g)) return 1;
         if(kv_parse_ints(argv[1], &ng)){ kv_free_ints(&g); return 1; }
         if(g.n < 1){ kv_free_ints(&g); kv_free_ints(&ng); return 1; }
-        update_gaps(g.n - 1, g.v, ng.v);
+        kv_update_gaps(g.n - 1, g.v, ng.v);
         kv_print_ints(out, g.v, g.n);
         kv_free_ints(&g); kv_free_ints(&ng);
         return 0;
@@ -63,7 +64,7 @@ static int op_make_seq(int argc, char **argv, FILE *out)
                 path[0] = codes.n;
                 for(int i = 0; i < codes.n; i++) path[i+1] = codes.v[i];
                 path[codes.n + 1] = 3;
-                make_seq(&msa, a, b, path);
+                kv_make_seq(&msa, a, b, path);
                 free(path);
                 int first = 1;
                 for(int j = na; j--;){ if(!first) fputc(' ', out); first = 0; kv_print_ints(out, gs[sa[j]].v, gs[sa[j]].n); }
